@@ -258,6 +258,31 @@ def blackbox_part(ck, quick):
                     ck.violation("C18:blackbox:exit-status:error-in-an-early-file-lost", dict(position_in_scan_order=pos, threads=p_, single_file_exit=rc_f, directory_exit=rc_d, directory_stderr=err_d[-300:], single_file_stderr=err_f[-300:]))
     else:
         ck.violation("C18:harness:scan-order-probe-failed", dict(output=order_out[-500:]))
+    # a file whose scan ends with a per-scan error (regexp fiber limit) in the middle of a worker's run: the files the same worker takes afterwards must be
+    # reported as when scanned alone (the worker's scanner is reused after the failed scan)
+    fd_ = os.path.join(WORK, "fibdir"); os.makedirs(fd_)
+    for i in range(10): open(os.path.join(fd_, "h%d" % i), "wb").write(b"plain %d" % i)
+    r5 = os.path.join(WORK, "fib.yar")
+    open(r5, "w").write('rule every { condition: true } rule fib { strings: $r = /abcd([ef]{1,40}[eg]{1,40}){1,40}h/ condition: $r } rule rx { strings: $r = /xy[a-c]+z/ $h = { 78 79 ?? [1-3] 7A } condition: $r and $h }')
+    _, order_out, _ = run([bins["yara"], "-p", "1", "-i", "every", r5, fd_]); n += 1
+    order = [l.split(" ", 1)[1] for l in order_out.split("\n") if l.startswith("every ")]
+    if len(order) == 10:
+        for pos in (0, 3):
+            for k_, f_ in enumerate(order): open(f_, "wb").write(b"-- xyabcz %d --" % k_)
+            open(order[pos], "wb").write(b"abcd" + b"e" * 3000)
+            per_out, per_err = collections.Counter(), collections.Counter()
+            for f_ in order:
+                _, o_, e_ = run([bins["yara"], r5, f_]); n += 1
+                per_out.update(l for l in o_.split("\n") if l); per_err.update(l for l in e_.split("\n") if l.startswith("error"))
+            for p_ in (1, 2, 4):
+                _, o_, e_ = run([bins["yara"], "-p", str(p_), r5, fd_]); n += 1
+                got_out, got_err = collections.Counter(l for l in o_.split("\n") if l), collections.Counter(l for l in e_.split("\n") if l.startswith("error"))
+                if got_out != per_out or got_err != per_err:
+                    ck.violation("C18:blackbox:files-after-a-failed-scan:directory-vs-per-file", dict(failing_file_position=pos, threads=p_, only_directory=sorted(((got_out - per_out) + (got_err - per_err)).elements())[:6],
+                                                                                                     only_per_file=sorted(((per_out - got_out) + (per_err - got_err)).elements())[:6]))
+        if not any("error" in l for l in per_err): ck.violation("C18:harness:fiber-limit-file-did-not-fail", dict(stderr=list(per_err)))
+    else:
+        ck.violation("C18:harness:scan-order-probe-failed", dict(output=order_out[-500:]))
     # a rule set wider than one 64-bit word of the scanner's per-rule bitmaps: every worker reuses its scanner for all the files it takes from the queue
     wd = os.path.join(WORK, "widedir"); os.makedirs(wd)
     for i in range(12):
